@@ -87,10 +87,26 @@ Print Assumptions C11_cycle_typeerror.
 (* 15.12.2 Walk is bottom-up: the call for a node is the last of its sub-walk and
    sees the node with its children already revived; the result is the reviver's *)
 Theorem C11_reviver_bottom_up : forall id f key v,
-  exists log v', fst (fst (rwalk id (S f) key v)) = log ++ [(key, v')] /\
-                 snd (fst (rwalk id (S f) key v)) = rev_fun id key v'.
+  exists log v', fst (rwalk id (S f) key v) = log ++ [(key, v')] /\
+                 snd (rwalk id (S f) key v) = rev_fun id key v'.
 Proof. exact rwalk_node_last. Qed.
 Print Assumptions C11_reviver_bottom_up.
+
+(* deletions on undefined: the reviver that returns undefined for every member
+   leaves no member behind, for every object (otto's walk used to lose track of
+   members while deleting; repaired by 7f33b5d, so model = spec here) *)
+Theorem C11_reviver_deletes_all : forall m f,
+  (forall kv, In kv m -> fst kv <> []) ->
+  snd (rwalk 7 (S (S f)) [] (OObj m)) = OObj [].
+Proof. exact reviver_deletes_all. Qed.
+Print Assumptions C11_reviver_deletes_all.
+
+(* 15.12.3 step 4.b: the property list, of the model with or without otto's
+   remaining deviations, never holds a name twice (the array-replacer defect
+   was repaired by c349b98: the model's list is the ES5 list K) *)
+Theorem C11_property_list_distinct : forall fl l, distinct (plist_of fl l).
+Proof. exact property_list_distinct. Qed.
+Print Assumptions C11_property_list_distinct.
 
 (* otto's deviations, as refutations of "model = spec" with concrete witnesses *)
 Theorem C11_parse_surrogate_refuted : exists t, pobs_eqb (parse_model t) (parse_spec t) = false.
@@ -113,10 +129,6 @@ Theorem C11_stringify_surrogate_refuted : exists v, stringify otto v RNone SNone
 Proof. exists (Str [55296]). vm_compute. discriminate. Qed.
 Print Assumptions C11_stringify_surrogate_refuted.
 
-Theorem C11_property_list_refuted : exists v l, stringify otto v (RList l) SNone <> stringify es5 v (RList l) SNone.
-Proof. exists (Obj [([97], Null)]), [PJunk; PStr [97]]. vm_compute. discriminate. Qed.
-Print Assumptions C11_property_list_refuted.
-
 Theorem C11_gap_bytes_refuted : exists v s, stringify otto v RNone (SStr s) <> stringify es5 v RNone (SStr s).
 Proof. exists (Arr [Null]), [233; 233; 233; 233; 233; 233]. vm_compute. discriminate. Qed.
 Print Assumptions C11_gap_bytes_refuted.
@@ -124,10 +136,6 @@ Print Assumptions C11_gap_bytes_refuted.
 Theorem C11_integer_digits_refuted : exists v, stringify otto v RNone SNone <> stringify es5 v RNone SNone.
 Proof. exists (Num 4877398396442247168 [49; 49; 53; 50; 57; 50; 49; 53; 48; 52; 54; 48; 54; 56; 52; 55] 19). vm_compute. discriminate. Qed.
 Print Assumptions C11_integer_digits_refuted.
-
-Theorem C11_reviver_delete_refuted : exists n, revdel_survivors n <> 0.
-Proof. exists 4. vm_compute. discriminate. Qed.
-Print Assumptions C11_reviver_delete_refuted.
 
 (* non-vacuity: the hypotheses of the round trip are met by a value with every constructor *)
 Example C11_roundtrip_hyp_met :
@@ -141,3 +149,15 @@ Example C11_shape_hyp_met :
   stringify es5 (Obj [([97], Arr [Undef; Fun; WBool true; Num 9218868437227405312 [] 0]); ([98], Fun)]) RNone SNone
   = SText [123; 34; 97; 34; 58; 91; 110; 117; 108; 108; 44; 110; 117; 108; 108; 44; 116; 114; 117; 101; 44; 110; 117; 108; 108; 93; 125].
 Proof. vm_compute. repeat split; auto. Qed.
+
+Example C11_deletes_all_hyp_met :
+  let m := [([97], ONull); ([98], OArr [ONull]); ([99], OObj [([], ONull)])] in
+  (forall kv, In kv m -> fst kv <> []) /\ snd (rwalk 7 3 [] (OObj m)) = OObj [] /\ revdel_left 12 = 0.
+Proof.
+  split; [|split; reflexivity].
+  intros kv [<-|[<-|[<-|[]]]]; discriminate.
+Qed.
+
+Example C11_property_list_example :
+  plist_of otto [PJunk; PStr [97]; PStr [97]; PNum 1; PWStr [98]] = [[97]; [49]; [98]].
+Proof. reflexivity. Qed.
